@@ -56,6 +56,12 @@ def run(chk: harness.Check):
     d3_formula(chk, F)
     d4_lineage(chk, F)
     c13.d3_servings(chk, F)
+    if chk.tier == "thorough":
+        import thorough
+        ok, n, out = thorough.witnesses()
+        chk.expect(ok and n >= 9, "C08.D5-typestate", "doc-test witnesses", "witnesses/src/lib.rs",
+                   f"typestate witnesses failed ({n} passed): {out}",
+                   sample=f"{n} witnesses hold: ScaledRecipe has no scale/default_scale, ScalableRecipe has no convert, scaling consumes the recipe (each compile_fail paired with a compiling twin)")
 
 
 def d1_linear(chk, F):
